@@ -141,7 +141,7 @@ def h_step(ctx):
     for m2, p2 in ((not ctx.p['moore'], ctx.p['plus_one']),
                    (ctx.p['moore'], not ctx.p['plus_one'])):
         aut.moore, aut.plus_one = m2, p2
-        r2 = ctx.call(step, E, S, T, aut, label='step')
+        r2 = ctx.call(step, env_action=E, sys_action=S, target=T, aut=aut, label='step')
         w.oblige('step.post (same automaton, mode attributes changed between calls): r == CPre of the current mode',
                  spec.equiv(w, w.term(r2), spec.cpre(w, tE, tS, tT, m2, p2)))
     aut.moore, aut.plus_one = ctx.p['moore'], ctx.p['plus_one']
@@ -220,7 +220,11 @@ def h_trap(ctx):
         inv=inv)}
     before = snapshot(aut)
     trap = ctx.fn(fx.trap, loops=loops, overrides=dict(step=step_stub(ctx)))
-    r = ctx.call(trap, E, S, safe, aut, unless=unless, label='trap')
+    if ctx.p.get('keyword', bool(ctx.p.get('moore'))):
+        # the documented parameter names, given by keyword
+        r = ctx.call(trap, env_action=E, sys_action=S, safe=safe, aut=aut, unless=unless, label='trap')
+    else:
+        r = ctx.call(trap, E, S, safe, aut, unless=unless, label='trap')
     tr = w.term(r)
     w.oblige('trap.post: r == (safe /\\ CPre r) \\/ unless   (fixpoint)',
              spec.equiv(w, tr, F(tr)))
@@ -284,8 +288,12 @@ def h_attractor(ctx):
     before = snapshot(aut)
     attractor = ctx.fn(fx.attractor, loops=loops,
                        overrides=dict(step=step_stub(ctx)))
-    r = ctx.call(attractor, E, S, target, aut, inside=inside,
-                 label='attractor')
+    if ctx.p.get('keyword', bool(ctx.p.get('moore'))):
+        r = ctx.call(attractor, env_action=E, sys_action=S, target=target, aut=aut, inside=inside,
+                     label='attractor')
+    else:
+        r = ctx.call(attractor, E, S, target, aut, inside=inside,
+                     label='attractor')
     tr = w.term(r)
     w.oblige('attractor.post: r == (r \\/ CPre r) [/\\ inside]   (fixpoint)',
              spec.equiv(w, tr, H(tr)))
